@@ -616,18 +616,28 @@ pub fn sched_child(tier: &str, c: usize, n: usize) -> i32 {
     for ix in (0..sitems.len()).filter(|i| i % n == c) {
         let it = &sitems[ix];
         let s = &subs[it.s];
-        let shared = Arc::new(s.build());
-        let cloned = Arc::new((*shared).clone());
+        // the searcher (and its clone) are rebuilt before every execution, so
+        // that executions are independent of each other
+        let slot: Arc<Mutex<(Arc<AhoCorasick>, Arc<AhoCorasick>)>> = {
+            let a = Arc::new(s.build());
+            let c2 = Arc::new((*a).clone());
+            Arc::new(Mutex::new((a, c2)))
+        };
         let results: Arc<Mutex<Vec<String>>> = Arc::new(Mutex::new(vec![String::new(); it.ops.len()]));
         let bodies: Vec<Body> = it
             .ops
             .iter()
             .enumerate()
             .map(|(k, &op)| {
-                let ac = if it.clone_second && k == 1 { cloned.clone() } else { shared.clone() };
+                let slot = slot.clone();
+                let use_clone = it.clone_second && k == 1;
                 let s2 = s.clone();
                 let res = results.clone();
                 let bdy: Body = Arc::new(move || {
+                    let ac = {
+                        let g = slot.lock().unwrap();
+                        if use_clone { g.1.clone() } else { g.0.clone() }
+                    };
                     let r = run_op(&ac, &s2, op);
                     res.lock().unwrap()[k] = r;
                 });
@@ -645,6 +655,9 @@ pub fn sched_child(tier: &str, c: usize, n: usize) -> i32 {
                 for r in results.lock().unwrap().iter_mut() {
                     r.clear();
                 }
+                let a = Arc::new(s.build());
+                let c2 = Arc::new((*a).clone());
+                *slot.lock().unwrap() = (a, c2);
             },
             &mut |x| {
                 let got = res2.lock().unwrap().clone();
